@@ -56,6 +56,7 @@ SCENARIOS = {
         (False, [P(0, "x"), P(1, "y", complex_=True), P(None, "k", complex_=True), P(None, "j")]),
         (False, [P(0, "x"), P(1, "y"), P(None, "k"), P(None, "j")]),
     ],
+    "generic-alias-positional-only": [(False, [P(0, None, complex_=True), P(1, "b")]), (False, [P(0, None), P(1, "b", complex_=True)])],
     "all-optional": [(False, [P(0, "x", required=False)]), (False, [P(0, "x", required=False), P(1, "y", required=False)])],
     "conflict-positions": [(False, [P(0, "x"), P(1, "y")]), (False, [P(0, "y"), P(1, "x")])],
     "conflict-positional-vs-keyword": [(False, [P(0, "x"), P(1, "y")]), (False, [P(0, "x"), P(None, "y")])],
